@@ -6,6 +6,7 @@
 mod json;
 mod gen;
 mod mon;
+mod real;
 mod refmodel;
 mod report;
 mod rng;
@@ -52,7 +53,7 @@ fn monitors() -> Vec<(Meta, RunFn, ReplayFn)> {
     macro_rules! m {
         ($($m:ident),*) => { vec![$((mon::$m::meta(), mon::$m::run as RunFn, mon::$m::replay as ReplayFn)),*] };
     }
-    m!(c08)
+    m!(c01, c08, c10, c14)
 }
 
 fn main() {
